@@ -42,6 +42,8 @@ type Req struct {
 	Detail   bool     `json:"detail"`   // use fingerprints (function source, stack traces) instead of abstract canon
 	Progs    []string `json:"progs"`    // session
 	Embed    string   `json:"embed"`    // session: playground | evalenv | runtest
+	Files    map[string]string `json:"files"` // runsource: a tree of source files (relative path -> text); Main is run as `pangaea <dir>/<Main>`
+	Main     string   `json:"main"`
 	Helpers  []string `json:"helpers"`  // session: per program, the source of ./helper.pangaea next to it ("" = none)
 	Dir      string   `json:"dir"`      // session/runtest: scratch directory
 	N        int      `json:"n"`        // conc: goroutines
